@@ -9,7 +9,7 @@ CLAIMS = {
     "C11": ("model_checking",
             "Every operation history up to the depth bound over the CVec alphabet (incl. out-of-range insert/remove, reserve, clone, "
             "element writes, all From<Vec> shapes) is executed on the real CVec in lock-step with a Vec reference model, for five element "
-            "types; contents, length, capacity, panics, per-element drop counts, allocator balance/layout/red zones and the calls made "
+            "types, over an allocator that always relocates on growth and over one that grows in place inside a size class; contents, length, capacity, panics, per-element drop counts, allocator balance/layout/red zones and the calls made "
             "through the stored reserve_fn/drop_fn are compared after every step. Full enumeration (no state merging) plus a deeper BFS "
             "with canonical-state deduplication.",
             "DESIGN.md §4 C11",
@@ -30,7 +30,7 @@ CLAIMS = {
             "h_objects/objs"),
     "C02": ("exploration",
             "Same generated harness as C01, depth 1 over the whole value domain of every wrapped shape in every position the grammar accepts it: "
-            "slices (empty, offset, zero-sized elements), strings (empty, non-ASCII, interior NUL), None/Some and Ok/Err extremes, extreme "
+            "slices (empty, offset, zero-sized elements), strings (empty, non-ASCII, interior and trailing NUL, only-NUL, white-space-framed), Option of a raw pointer, module-path spellings of Option/Result, None/Some and Ok/Err extremes, extreme "
             "integers, impl Into sources, by-value struct, out-parameter, callbacks stopping at each position, iterators of length 0/1/4, fn "
             "pointer, raw pointer, and every return arm; the callee's view (elements, length, address) and the caller's view of the result and "
             "of its own buffers are compared with the direct call.",
@@ -60,11 +60,11 @@ CLAIMS = {
             "explicit-state exploration of the real code over a build-configuration matrix, differential against a single-module run",
             "gen/xmod_c05.py + engine_xmod"),
     "C17": ("exploration",
-            "API models (1-4 traits, 0-2 groups, 0-4 arguments of 10 kinds, three receivers, five return kinds incl. Self, Box/Mut/Ref, no "
+            "API models (1-4 traits, 0-2 groups, 0-4 arguments of 10 kinds, three receivers, seven return kinds incl. Self and raw void pointers, a by-value struct with two type parameters, Box/Mut/Ref, no "
             "context / CArc, several instantiations, name clashes, config keys, C and C++) are rendered by a miniature cbindgen, pushed through "
             "the REAL cglue-bindgen binary (stub cbindgen on PATH) and every generated wrapper is called from a generated mock translation unit "
             "compiled with gcc/g++; each call must reach exactly its vtable slot with the container and the same arguments, return the slot's "
-            "result, and consuming wrappers / drop helpers must release instance and context exactly once while holding a context clone across the call. "
+            "result, and consuming wrappers / drop helpers must release instance and context exactly once while holding a context clone across the call (every context clone is a distinct handle in the mock, so a double release is seen even next to a leak). "
             "Ten confirmed tool defects are recorded as known findings; causes that depend on unverifiable details of cbindgen's C++ output are recorded, not judged.",
             "DESIGN.md §4 C17, §5.6",
             "No cbindgen offline: the synthesiser (gen/bindgen_headers.py) is a model of cbindgen 0.20 validated against the published example headers.",
@@ -73,7 +73,7 @@ CLAIMS = {
     "C18": ("exploration",
             "Same header space plus several context types, wrapped-return structs, planted foreign declarations with CGlue-like names, all config "
             "combinations and 8 argument layouts: the processed header must compile on its own (gcc -std=c99 / g++ -std=c++11), R fresh-process "
-            "runs must be byte-identical (R=5/25), planted declarations must survive verbatim and in order, the stub cbindgen must receive exactly the "
+            "runs must be byte-identical (R=5/25) and a further run over a stale, longer file at the output path must give the same bytes, planted declarations must survive verbatim and in order, the stub cbindgen must receive exactly the "
             "post-`--` arguments minus the output path, and the processed header must land in that path.",
             "DESIGN.md §4 C18, §5.5",
             "Synthesised cbindgen output (see C17).",
@@ -105,7 +105,8 @@ CLAIMS = {
     "C07": ("model_checking",
             "Same history explorer with one shared CArc context: after every step the context's strong count must equal 1 + the number of live "
             "derived objects (owned children, groups, clones, cast/final forms, results of by-value calls) and return to 1 at teardown, the "
-            "context payload must be dropped then and never earlier. A separate exhaustive section makes the object the last holder and checks, "
+            "context payload must be dropped then and never earlier. A further section enumerates every operation sequence over a parent whose "
+            "wrapped children are bounded by the trait's lifetime parameter (owned object / group children, Result Ok and Err, drops in both orders). A separate exhaustive section makes the object the last holder and checks, "
             "by a backtrace taken in the context payload's Drop, that a consuming call does not release it while a generated wrapper frame is "
             "on the stack. The borrowed-child leak (known finding) is detected by a probe, reported once, and the model is adjusted so that "
             "every other discrepancy is still a violation.",
@@ -115,7 +116,8 @@ CLAIMS = {
             "h_life"),
     "C08": ("exploration",
             "Complete matrix: generated group families (n = 1..3 quick / 1..4 thorough optional traits, a family without mandatory trait, "
-            "aliased generic instantiations, traits with &mut methods, out-of-order declarations) x all 2^n implementing types x all 2^n-1 "
+            "aliased generic instantiations, traits with &mut methods, out-of-order declarations, names whose case-folded order differs, the "
+            "4-argument cglue_impl_group! form with a Fwd<&mut T> container) x all 2^n implementing types x all 2^n-1 "
             "requested subsets x {check, as_ref, as_mut, cast, into} x {Box, Mut, Ref}; success iff requested subset of enabled; on success "
             "every mandatory and requested method returns the value of this instance and trait, mutations reach the instance, cast+upcast gives "
             "a group with exactly the enabled set, payload drop counts exact.",
@@ -126,17 +128,19 @@ CLAIMS = {
     "C09": ("exploration",
             "Complete matrix handle kind x payload class x marker x context x form (plain into_opaque / trait_obj! / group_obj!): one probe per "
             "cell asks rustc whether the opaque type has the marker; the twin probe on the concrete handle decides what is allowed; failures must "
-            "be E0277 naming the marker; cells whose conversion is rejected are recorded as not expressible. 169 cells violate the property on "
+            "be E0277 naming the marker; cells whose conversion is rejected are recorded as not expressible. The matrix is swept once per feature configuration of the "
+            "cglue crate (default, layout_checks). 180 cells violate the property on "
             "the current tree (known findings, DESIGN 5.2).",
             "DESIGN.md §4 C09, §5.2",
             "rustc's auto-trait solver is the oracle per cell; one representative type per payload class.",
             "exhaustive enumeration of a finite configuration matrix, compiler as per-cell oracle",
             "gen/sendsync_c09.py"),
     "C20": ("exploration",
-            "For 13 base definitions (6 quick) every single-edit twin (add/remove/rename/reorder method, argument/return C type, receiver, "
+            "For 19 base definitions (11 quick; incl. traits reachable only through another trait's wrapped return type / opaque object "
+            "argument, callbacks, iterators, element types) every single-edit twin (add/remove/rename/reorder method, argument/return C type, receiver, "
             "int_result toggle, group trait add/remove/reorder, mandatory add) plus identical twins and missing sides is expanded by the real "
             "macros under layout_checks and compared through compare_layouts / VerifyLayout::check in both directions, for every container and "
-            "context (thorough); all 9 ordered pairs of VerifyLayout::and.",
+            "context (thorough); all 9 ordered pairs of VerifyLayout::and; every sequence of up to 3 comparisons in one process (the verdict must not depend on earlier calls).",
             "DESIGN.md §4 C20",
             "abi_stable's comparison is trusted; twins are modules of one crate; edits that keep every C type are recorded, not judged.",
             "exhaustive enumeration of single-edit program pairs on the real code",
@@ -146,8 +150,10 @@ CLAIMS = {
             "into_opaque, into_arc, drop} on a pool of typed and opaque CArc/CArcSome handles is executed on the real code against a "
             "reference model (multiset of handles per allocation); strong counts, payload drop counts, pointer identity, the stored "
             "function pointers (C view) and allocator balance are checked after every step; full enumeration plus BFS to closure of the "
-            "canonical state space. Concurrent half: loom explores all interleavings (preemption-bounded) of 2-3 threads operating on handles "
-            "to one allocation over the real arc.rs compiled against loom's Arc.",
+            "canonical state space; payload types of alignment 8 and 64; two teardown orders (a retained std Arc goes last / the handles "
+            "go last, so that the last handle must destroy the payload). Concurrent half: loom explores all interleavings (preemption-bounded) of 2-3 threads operating on handles "
+            "to one allocation over the real arc.rs compiled against loom's Arc, every scenario with and without another owner "
+            "(handles-only: the payload must be destroyed exactly once by whichever handle is released last).",
             "DESIGN.md §4 C10",
             "std Arc / loom's Arc model trusted; bounded pools, depths and preemptions.",
             "explicit-state exploration of the real code + loom (DPOR over all interleavings within a preemption bound)",
@@ -179,7 +185,8 @@ CLAIMS = {
             "exhaustive enumeration of a bounded input domain on the real code, crash-isolated",
             "h_runtime/c14"),
     "C15": ("model_checking",
-            "Callbacks: every (length, stop position, sink kind, delivery path) cell with drop-counting items. Iterators: for every source "
+            "Callbacks: every (length, stop position, sink kind, delivery path) cell with drop-counting items, the delivery paths including "
+            "feed_into / feed_into_mut / extend from a lazy source passed by_ref (the source must be advanced by exactly the offered items). Iterators: for every source "
             "iterator shape and length, every operation sequence up to a depth over {next through each wrapper constructor, two nexts on one "
             "wrapper, next on the source directly, wrap-and-release} is executed from scratch and compared step by step with a model of the source.",
             "DESIGN.md §4 C15",
@@ -189,9 +196,10 @@ CLAIMS = {
     "C19": ("model_checking",
             "Sequential half: a scripted future/stream/sink behind trait_obj! is polled with a counting caller-side waker; every history up "
             "to the depth bound over {clone/wake_by_ref of cx.waker(), clone/wake/wake_by_ref/drop of any live foreign-side waker} x {inside a new "
-            "poll, inside the same poll, after the poll, after the poll on another OS thread} is executed on the real code; after every step "
+            "poll, inside the same poll, after the poll, after the poll on another OS thread}, plus the caller dropping its own waker while "
+            "foreign wakers live, with an ordinary and with a null-data caller waker, is executed on the real code; after every step "
             "the caller's wake count must equal the wake operations and its refcount must never go below the start value and return to it when "
-            "no foreign waker is left. Concurrent half: loom explores all interleavings of 2-3 threads operating on foreign wakers over the real "
+            "no foreign waker is left; it is never used after its last release and never released while a foreign waker lives. Concurrent half: loom explores all interleavings of 2-3 threads operating on foreign wakers over the real "
             "task/mod.rs compiled against a loom-backed tarc::BaseArc.",
             "DESIGN.md §4 C19",
             "Thread hand-off at operation granularity in the history half; loom's model + the tarc shim in the concurrent half; bounded depth.",
